@@ -84,6 +84,8 @@ def check_one(tree, variant, le, L):
         vt = str(build_expr(variant).simplify())
         if vt != text:
             return 'rewritten input simplifies to another text: %r vs %r' % (vt, text)
+    if gen.tree_size(tree) <= 7:
+        return order_error(tree, cap=30)
     return None
 
 
@@ -149,6 +151,8 @@ def run(rep, tier, seed):
             continue
         si = enc_expr(build_expr(t).simplify())
         rep.compared += 1
+        if si != rm:
+            rep.suspects = getattr(rep, 'suspects', []) + [t]
         if si != rm and len(rep.broken) < 5:
             rep.broken.append('correspondence C07/simplify: tree %s model %r implementation %r' % (build_expr(t), rm, si))
         if v is not None and rv != rm and len(rep.broken) < 5:
@@ -156,7 +160,57 @@ def run(rep, tier, seed):
                               % (build_expr(t), build_expr(v)))
 
 
+def orders(tree, cap=400):
+    """The tree with the operands of its nodes in other orders (every permutation of small nodes), at most cap of them."""
+    import itertools
+    if tree[0] == 0:
+        return [tree]
+    kids = [orders(k, 6) for k in tree[1]]
+    out = []
+    for perm in itertools.permutations(range(len(kids))) if len(kids) <= 4 else [tuple(range(len(kids))), tuple(reversed(range(len(kids))))]:
+        for combo in itertools.islice(itertools.product(*[kids[i] for i in perm]), 40):
+            out.append([tree[0], list(combo)])
+            if len(out) >= cap:
+                return out
+    return out
+
+
+def order_error(tree, cap=400):
+    """One expression in all the orders of its operands: one simplified text."""
+    texts = {}
+    for v in orders(tree, cap):
+        texts.setdefault(str(build_expr(v).simplify()), v)
+        if len(texts) > 1:
+            (t1, v1), (t2, v2) = list(texts.items())[:2]
+            return 'the same operands in two orders simplify to two texts: %s -> %r, %s -> %r' % (build_expr(v1), t1, build_expr(v2), t2)
+    return None
+
+
+def search(rep, tier, seed):
+    """The correspondence broke and no generated tree failed the oracle: shrink a tree on which the model and the
+    implementation differ and ask the oracle about every operand order of the small tree."""
+    le = imp()
+    L = le.Licensing()
+
+    def differs(t):
+        try:
+            return run_model([(5, t)])[0] != enc_expr(build_expr(t).simplify())
+        except Exception:   # noqa
+            return False
+    for t in getattr(rep, 'suspects', [])[:4]:
+        small = gen.shrink_tree(t, differs)
+        for cand in (small, t):
+            err = check_one(cand, None, le, L) or order_error(cand)
+            if err:
+                rep.violations.append({'key': 'canonical', 'kind': 'tree', 'tree': cand, 'variant': None, 'orders': True,
+                                       'text': str(build_expr(cand)), 'what': err})
+                return
+
+
 def replay(payload):
     le = imp()
+    if payload.get('orders'):
+        err = check_one(payload['tree'], None, le, le.Licensing()) or order_error(payload['tree'])
+        return (err is None, err or 'canonical, idempotent, order-invariant')
     err = check_one(payload['tree'], payload.get('variant'), le, le.Licensing())
     return (err is None, err or 'canonical, idempotent, rewrite-invariant')
